@@ -101,12 +101,15 @@ def run(shard, rec):
                 "import mpyc.runtime as r\n"
                 "mpc = r.mpc\n"
                 "print('SETUP-OK', len(mpc.parties), mpc.threshold, mpc.pid)\n") % env.REPO
-        for m in range(1, 8):
-            for t in list(range(0, 5)) + [None]:
-                case = ['setup', m, t]
+        for mode, m, t in [(mode, m, t) for mode in ('-M', '-P') for m in range(1, 8) for t in list(range(0, 5)) + [None]]:
+            if True:
+                case = ['setup', m, t] + ([mode] if mode != '-M' else [])
                 if not rec.wants(case):
                     continue
-                argv = ['-M', str(m), '-I', '0', '--no-log'] + (['-T', str(t)] if t is not None else [])
+                if mode == '-M':
+                    argv = ['-M', str(m), '-I', '0', '--no-log'] + (['-T', str(t)] if t is not None else [])
+                else:                              # parties given by address, as in a distributed deployment (setup() does not connect)
+                    argv = [x for i in range(m) for x in ('-P', f'localhost:{12000 + i}')] + ['-I', '0', '--no-log'] + (['-T', str(t)] if t is not None else [])
                 p = subprocess.run([sys.executable, '-c', code] + argv, stdout=subprocess.PIPE, stderr=subprocess.STDOUT, text=True, timeout=60,
                                    env=dict(os.environ, PYTHONDONTWRITEBYTECODE='1', MPYC_NONUMPY='1'))
                 rec.count('setup_runs')
@@ -115,7 +118,7 @@ def run(shard, rec):
                 eff_t = t if t is not None else (m - 1) // 2
                 should = 2 * eff_t < m
                 if built != should:
-                    rec.violation(f'runtime.setup() with -M{m} -T{t}: {"built a runtime" if built else "refused"} although 2t {"<" if should else ">="} m; output {p.stdout[-200:]!r}',
+                    rec.violation(f'runtime.setup() with {mode} x {m} -T{t}: {"built a runtime" if built else "refused"} although 2t {"<" if should else ">="} m; output {p.stdout[-200:]!r}',
                                   {'mechanism': 'setup-threshold-check', 'fn': 'setup'}, {'case': case}, case=case)
                 elif built:
                     mm, tt, pid = okline[0].split()[1:4]
